@@ -419,7 +419,88 @@ def manifest_protection(item):
     return acc
 
 
+STORED_LA_URLS = ['https://lic.example/rights', 'https://lic.example/r?x=a%2Bb', 'https://lic.example/r?x=a+b',
+                  'https://lic.example/r?a=1%26b=2', 'https://lic.example/a%20b/c', 'https://lic.example/r?a=1&b=2']
+
+
+def stored_la_url(item):
+    """The licence URL stored with the stream (Stream.playready_la_url) is what the PlayReady header names - in the
+    manifest (mspr:pro, cenc:pssh) and in the pssh of the init segment - byte for byte."""
+    url_value, template, mode = item
+    w = W.World.shared()
+    w.begin_item()
+    acc = core.Acc()
+    W.set_now(NOW)
+    try:
+        with w.appctx():
+            st = w.models.Stream.get(directory='bbb')
+            st.playready_la_url = url_value
+            w.models.db.session.commit()
+            w.models.db.session.remove()
+        q = {'drm': 'playready'}
+        if mode == 'live':
+            q['depth'] = '30'
+        url = crawl.manifest_url(mode, 'bbb', template, q)
+        r = w.get(url)
+        acc.count('evaluations')
+        acc.count('transitions')
+        acc.state(('stored-la', url_value, template, mode))
+        rec = {'kind': 'stored-la', 'value': url_value, 'template': template, 'mode': mode}
+        if r.status != 200:
+            acc.outcome(('stored-la', r.status))
+            return acc
+        doc = mpd.Mpd(r.body, 'http://localhost' + url.split('?')[0])
+
+        def la_of(rawpro):
+            recs = c10.parse_pro(rawpro)
+            xml = [v for t, v in recs if t == 1][0].decode('utf-16-le')
+            import re as _re
+            m = _re.search(r'<LA_URL>(.*?)</LA_URL>', xml, _re.S)
+            import html as _html
+            return _html.unescape(m.group(1)) if m else None
+        checked = 0
+        for rep in doc.all_reps():
+            for cp in list(rep.adp_el.findall(mpd.Q + 'ContentProtection')) + list(rep.el.findall(mpd.Q + 'ContentProtection')):
+                pro = cp.find('{urn:microsoft:playready}pro')
+                ps = cp.find('{urn:mpeg:cenc:2013}pssh')
+                for where, raw in (('mspr:pro', base64.b64decode(pro.text.strip()) if pro is not None and pro.text else None),
+                                   ('cenc:pssh', bmff.pssh(bmff.parse(base64.b64decode(ps.text.strip())).children[0])['data']
+                                    if ps is not None and ps.text and (cp.get('schemeIdUri') or '').lower().endswith('e65be0885f95') else None)):
+                    if raw is None:
+                        continue
+                    got = la_of(raw)
+                    checked += 1
+                    if got != url_value:
+                        acc.violation(sig('stored-la-url', where), f'{url}: stream licence URL {url_value!r} appears as {got!r} in {where}', rec)
+            iu = rep.init_url()
+            if iu:
+                ir = w.get(mpd.split_url(iu))
+                acc.count('evaluations')
+                if ir.status == 200:
+                    try:
+                        moov = bmff.parse(ir.body).find('moov')
+                        for b in moov.children:
+                            if b.type == b'pssh':
+                                pp = bmff.pssh(b)
+                                if pp['system_id'] == c10.PLAYREADY:
+                                    got = la_of(pp['data'])
+                                    checked += 1
+                                    if got != url_value:
+                                        acc.violation(sig('stored-la-url', 'init-pssh'), f'{mpd.split_url(iu)}: stream licence URL '
+                                                      f'{url_value!r} appears as {got!r} in the moov pssh', rec)
+                    except bmff.Malformed:
+                        pass
+        if checked:
+            acc.nontriv(('stored-la', url_value, template, mode))
+        acc.outcome(('stored-la-checked', checked > 0))
+    finally:
+        w.reset()
+    return acc
+
+
 def _dispatch(item):
+    if item[0] == 'stored-la':
+        return stored_la_url(item[1])
     kind, arg = item
     return {'keys': pure_keys, 'pro': pure_pro, 'clearkey': clearkey_requests, 'manifest': manifest_protection}[kind](arg)
 
@@ -440,6 +521,9 @@ def run(ctx):
             if ctx.quick and template not in ('hand_made', 'manifest_e') and len(sel) > 1 and drm != 'all':
                 continue
             items.append(('manifest', (template, mode, drm, sel)))
+    for v in STORED_LA_URLS:
+        for template, mode in (('hand_made', 'vod'), ('hand_made', 'live'), ('manifest_e', 'vod')):
+            items.append(('stored-la', (v, template, mode)))
     ctx.merge_all(ctx.pmap(_dispatch, items, chunksize=2))
     ctx.acc.counts['transitions'] += 0
     ctx.acc.counts['traces'] += ctx.acc.counts['evaluations']
@@ -449,7 +533,14 @@ def run(ctx):
                                        if ctx.quick else ''))
 
 
+def _replay_stored(record):
+    a = stored_la_url((record['value'], record['template'], record['mode']))
+    return [(s_, v[0]['what']) for s_, v in a.viol.items()]
+
+
 def replay(record):
+    if record.get('kind') == 'stored-la':
+        return _replay_stored(record)
     k = record.get('kind')
     if k in ('guid', 'key', 'shortseed'):
         acc = pure_keys(None)
